@@ -260,8 +260,13 @@ class Hooks(BaseHooks):
                     K = nPi / math.sqrt(d * q)
                     self.cnt["probabilistic_K"] += 1
             elif rn:
-                viol.append(V("truth", i, f"no group of four recorded draws of shape {(d, s)} can be the test sketch "
-                                          f"behind the reported residuals (first draws {[tuple(dr.shape) for dr in draws[:4]]})"))
+                # the test sketch did not come through np.random.randn (e.g. a private generator
+                # seeded from the global stream would still satisfy the property): nothing to
+                # recompute the proxy from, so only the flag is judged, with the constant of a
+                # Gaussian sketch of the configured width whose norm is at its 1-1e-15 quantile
+                from scipy.stats import chi2
+                self.cnt["sketch_unidentified"] = self.cnt.get("sketch_unidentified", 0) + 1
+                K = math.sqrt(float(chi2.ppf(1 - 1e-15, 4 * d * s)) / (d * _chi2_lower(4 * s, 1e-15)))
             key = "iterations" if kind.startswith("rsp") else None
             if key and isinstance(info.get(key), (int, np.integer)) and info[key] != len(rn):
                 viol.append(V("truth", i, f"iterations = {info[key]} but {len(rn)} residuals"))
